@@ -26,9 +26,9 @@ class C14(vlib.PropertyCheck):
         technique='Rocq theorems (totality/safety = refinement of the checked scanner to a pure parser; parse-render round trip; canonical fixpoint) + extracted-model/implementation correspondence check with interposed netdb',
         text=('url_total: for every byte string and every lookup answer the checked model of spif_url_parse returns Ok and equals a pure '
               'list-level parser (no read outside the text, no use of a lookup result that was not obtained). url_parse_render: for every '
-              'component tuple meeting stated charset conditions, parsing the rendered text gives the components back with the port filled '
+              'component tuple meeting the stated charset conditions (record wf: proto alphanumeric; user without :@/?; passwd, port without @/?; host non-empty without :@/?; path starts with / and has no ?; a query contains no / when there is no path; without // the text after the protocol must not begin with // and, without a protocol, the text before the first : must not be purely alphanumeric), with or without //, parsing the rendered text gives the components back with the port filled '
               'from the oracle exactly when a protocol but no port was given. url_canonical_fixpoint as a corollary. Tied to src/url.c by '
-              'running the extracted model and the ASan build on generated URLs with all lookup outcomes.'),
+              'running the extracted model and the ASan build on generated URLs with all lookup outcomes (none, protocol, tcp service, udp-only service, service whose protocol does not resolve; ports 0..65535); the interposed lookups also check the arguments they are called with.'),
         design_ref='DESIGN.md section 7, C14')
 
     def gen(self, tier, rng):
